@@ -4,7 +4,7 @@ P=$1; C=$2; T=${3:-quick}
 W=$(mktemp -d /tmp/mutwt-XXXX)
 rmdir $W
 git -C /repo worktree add -q --detach $W main || exit 3
-if ! git -C $W apply $P; then echo "PATCH DOES NOT APPLY"; git -C /repo worktree remove --force $W; exit 3; fi
+if ! git -C $W apply $P 2>/dev/null && ! git -C $W apply --3way $P; then echo "PATCH DOES NOT APPLY"; git -C /repo worktree remove --force $W; exit 3; fi
 cd /verif && VERIF_REPO=$W ./bin/check $C $T > $W.log 2>&1
 rc=$?
 grep -E "VIOLATION|KNOWN-FINDING|SPEC-DRIFT|INFRA|done rc" $W.log | cut -c1-300
